@@ -276,6 +276,10 @@ def df_reshape(inp, W):
         for name, how, value in inp["values"]:
             if how == "callable":
                 kw[name] = (lambda v: (lambda d: v))(value)
+            elif how == "existing":
+                kw[name] = (lambda src: (lambda d: d[src]))(value)         # the callable hands back a column of the frame itself
+            elif how == "existing_view":
+                kw[name] = (lambda src: (lambda d: d[src][:]))(value)
             else:
                 kw[name] = value
         out = data.modify(**kw)
